@@ -20,7 +20,7 @@
 #
 #
 
-from casadi import Opti, jacobian, dot, hessian, symvar, evalf, veccat, DM, vertcat, is_equal
+from casadi import Opti, jacobian, dot, hessian, symvar, evalf, veccat, DM, vertcat, is_equal, Function
 import casadi
 import numpy as np
 from .casadi_helpers import get_meta, merge_meta, single_stacktrace, MX
@@ -198,8 +198,38 @@ class DirectMethod:
         """
         return vertcat(self.opti.x, self.opti.p)
 
-    def to_function(self, stage, name, args, results, *margs):
-        return self.opti.to_function(name, [stage.value(a) for a in args], results, *margs)
+    def to_function(self, stage, name, args, results, *margs, defaults=()):
+        """defaults: pairs (solver quantity, expression in terms of args) that are not arguments of
+        the Function but get their value/guess from the arguments"""
+        values = [stage.value(a) for a in args]
+        exprs = values + [e for e, _ in defaults]
+        if all(e.is_valid_input() for e in exprs) and len(defaults)==0:
+            return self.opti.to_function(name, values, results, *margs)
+        # Opti accepts pure symbols only, while a scaled quantity reads (scale * symbol):
+        # hand the symbols to Opti, and convert the (physical) arguments into them
+        inner_in = []
+        outer_in = []
+        inner_call = []
+        for i, e in enumerate(exprs):
+            if e.is_valid_input():
+                inner_in.append(e)
+                conv = lambda a: a
+            else:
+                s = veccat(*symvar(e))
+                J = jacobian(casadi.vec(e), s)
+                if s.numel()!=e.numel() or len(symvar(J))>0 or float(evalf(casadi.norm_inf(substitute(e, s, 0))))!=0:
+                    raise Exception("Argument %d of to_function is not purely symbolic." % i)
+                inner_in.append(s)
+                conv = lambda a, J=evalf(J): casadi.solve(MX(J), casadi.vec(a))
+            if i<len(values):
+                a = e if e.is_valid_input() else MX.sym("arg%d" % i, e.sparsity())
+                outer_in.append(a)
+                inner_call.append(conv(a))
+            else:
+                default = Function('default', inner_in[:len(values)], [defaults[i-len(values)][1]])
+                inner_call.append(conv(default.call(inner_call[:len(values)], True, False)[0]))
+        f = self.opti.to_function(name, inner_in, results)
+        return Function(name, outer_in, f.call(inner_call, True, False), *margs)
 
     def fill_placeholders_integral(self, phase, stage, expr, *args):
         if phase==1:
